@@ -26,12 +26,12 @@ def wide_phase(chk):
     primary-key index, the secondary index and the scan after every step (TLC -simulate walks)."""
     import widetable
     thorough = chk.tier == "thorough"
-    hists = widetable.walks(chk, 100 if thorough else 24, 20 if thorough else 12)
+    hists = widetable.walks(chk, 60 if thorough else 5, 20 if thorough else 12, cap=1500 if thorough else 150)
     outs = widetable.execute(hists)
     probs, st = widetable.judge(hists, outs)
     # the same with the indexes created (and dropped) on the POPULATED table: WithDDL = TRUE
-    dh = widetable.walks(chk, 80 if thorough else 16, 20 if thorough else 10, n=1000, ddl=True)
-    dprobs, dst = widetable.judge(dh, widetable.execute(dh, n=1000, ddl=True), n=1000)
+    dh = widetable.walks(chk, 20 if thorough else 1, 14 if thorough else 8, n=700, ddl=True, cap=500 if thorough else 50)
+    dprobs, dst = widetable.judge(dh, widetable.execute(dh, n=700, ddl=True), n=700)
     late = sum(1 for h in dh for x in h if x["op"]["k"] == "create_index" and x["probes"]["count"] >= 100)
     if not late:
         raise vlib.ToolError("no WideTable walk created an index on a table of 100 rows or more")
